@@ -27,6 +27,18 @@ THEOREMS = [
     "IwModel.C01.key_roundtrip_plain",
     "IwModel.C01.key_roundtrip_vnum8",
     "IwModel.C01.key_roundtrip_vnum4",
+    # bridge to C19: the comparator the store uses satisfies the hypothesis of the theorems above
+    "IwModel.C01.history_refines_on",
+    "IwModel.C01.history_refines_on_from",
+    "IwModel.C01.comparator_strict_total",
+    "IwModel.C01.comparator_strict_total_subtype",
+    "IwModel.C01.api_keys_valid",
+    "IwModel.C01.store_refines_map",
+    "IwModel.C01.store_map_laws",
+    "IwModel.C01.plain_store_refines_map",
+    "IwModel.C01.compound_store_refines_map",
+    "IwModel.C01.vnum_store_refines_map",
+    "IwModel.C01.real_store_refines_map",
 ]
 MANIFEST = dict(
     level="proof",
